@@ -9,6 +9,11 @@ package sourceaddrs
 //@ closed github.com/hashicorp/go-slug/sourceaddrs.remoteSourceType: sourceaddrs.gitSourceType, sourceaddrs.httpSourceType
 //@ closed github.com/hashicorp/go-slug/sourceaddrs.FinalSource: sourceaddrs.LocalSource, sourceaddrs.RegistrySourceFinal, sourceaddrs.RemoteSource
 
+// Representation invariants: every constructor of these types (the parsers, MakeRemoteSource, the Resolve functions,
+// SourceAddr, FinalSourceAddr) is proved to establish them; the fields are unexported.
+//@ type-invariant sourceaddrs.RemoteSource: normSub(_v.subPath)
+//@ type-invariant sourceaddrs.RegistrySource: normSub(_v.subPath)
+
 //@ func normalizeSubpath -> (r, err)
 //@   pure
 //@   sweep
